@@ -1,5 +1,5 @@
-// Correspondence harness for C13: the real Server with one client (or, case config `two`, two clients
-// A and B) created by Server::pair (connected socket pairs through the Server API), the kernel
+// Correspondence harness for C13: the real Server with one client (or, case config `two` / `three` / `four`,
+// that many clients A, B, C, D) created by Server::pair (connected socket pairs through the Server API), the kernel
 // simulated by interposition (serverwrite_kernel.cpp).  Operations are executed between run() calls
 // or, when queued with `react`, from inside the clients' callbacks.  One run() call =
 // Server::interrupt() followed by Server::run(): closing-clients pass, poll, dispatch, ... until the
@@ -9,12 +9,16 @@
 //   [A.|B.]write0 <hex> <outcome>   client->write(data, size) - no postponed pointer
 //   [A.|B.]ev <mask> <outcome>      run() with scripted readiness of that client   mask: letters of
 //                                   i(n) o(ut) h(up) d(rdhup) e(rr), or -
-//   evs <A:mask,B:mask> <outcome>*  run() with ONE epoll round reporting these clients in this order;
+//   evs <A:mask,B:mask,..> <outcome>*  run() with ONE epoll round reporting these clients in this order;
 //                                   the outcomes answer the send calls of the run, in order
+//   evsi <A:mask,..> <outcome>*     the same round, but the kernel reports the interrupt event in the SAME batch: the
+//                                   library keeps the collected events cached and run() returns; the next run() (tick)
+//                                   hands them out
 //   poll <outcome>                  run() with the real readiness of the sockets (epoll_wait, timeout 0)
-//   tick [outcome*]                 run() without readiness (two clients: events collected earlier may still be cached)
+//   tick [outcome*]                 run() without readiness (several clients: events collected earlier may still be cached)
 //   [A.|B.]suspend | resume | read <max> | remove | peerwrite <hex> | peerread | peerclose
-//   react [A.|B.]<onRead|onWrite|onClosed> <op...>   queue an operation for the next such callback
+//   react [A.|B.]<onRead|onWrite|onClosed> <op...> [& <op...>]*   queue an operation (or several, executed one after
+//                                   the other inside the same callback invocation) for the next such callback
 //
 // Observation line:  <op> r= n= cb= tx= sends= data= [dead] | sb= susp= | k= | t=
 //   sections 1-3 are what the extracted model predicts call by call (compared for correspondence);
@@ -24,6 +28,9 @@
 //     W<i>:<hex>           Client::write called with these bytes (client i: 0 = A, 1 = B)
 //     O<i>                 the library polled (epoll_wait) and the kernel finds the socket of client i writable
 //                          (scripted EPOLLOUT; real socket pair: always) - whether or not the library asked for that
+//     I<i>                 ... and finds unread input on it (scripted EPOLLIN; real socket pair: bytes to read / peer closed)
+//     R | X                last token of a run(): it returned after the kernel reported the interrupt (R) / because an
+//                          event without flags was handed out while the harness's interrupt was pending (X)
 //     S<i>:<req>:<ret>:<t|w|f>[u]   one send call (serverwrite_kernel.h)
 //     C<i>:<callback>      callback delivered
 //     ^                    the reaction queued for that callback ran here (its line is printed before this one)
@@ -51,17 +58,18 @@ static void s_hex(Str& s, const unsigned char* b, size_t n)
 }
 
 // what one operation shows
-struct Ctx { Str cbs, tx[2], sends, data, trace; const char* ret; long num; int hasnum; bool dead; };
+#define NCL SK_NC
+struct Ctx { Str cbs, tx[NCL], sends, data, trace; const char* ret; unsigned long long num; int hasnum; bool dead; };
 static void ctx_init(Ctx& c) { memset(&c, 0, sizeof(c)); c.ret = "-"; }
-static void ctx_free(Ctx& c) { free(c.cbs.p); free(c.tx[0].p); free(c.tx[1].p); free(c.sends.p); free(c.data.p); free(c.trace.p); }
+static void ctx_free(Ctx& c) { free(c.cbs.p); for(int i = 0; i < NCL; ++i) free(c.tx[i].p); free(c.sends.p); free(c.data.p); free(c.trace.p); }
 static void t_add(Ctx& c, const char* tok) { if(c.trace.n) s_add(c.trace, ","); s_add(c.trace, tok); }
 
-static int nclients = 1;        // 2 in a `two` case
+static int nclients = 1;        // 2 in a `two` case, 3 in a `three` case, 4 in a `four` case
 static Server* server = 0;
-static Server::Client* client[2] = {0, 0};
-static Socket* peer[2] = {0, 0};
-static bool dead[2] = {false, false};       // client removed
-static bool peer_closed[2] = {false, false};
+static Server::Client* client[NCL];
+static Socket* peer[NCL];
+static bool dead[NCL];       // client removed
+static bool peer_closed[NCL];
 static long caseno = 0;
 static Ctx* cur = 0;            // operation in progress
 
@@ -79,7 +87,7 @@ static void collect(Ctx& c)
 
 #define NREACT 64
 struct Reaction { char* line; };
-static Reaction reactq[2][3][NREACT]; static int reacth[2][3], reactt[2][3];
+static Reaction reactq[NCL][3][NREACT]; static int reacth[NCL][3], reactt[NCL][3];
 static const char* cbname[3] = {"onRead", "onWrite", "onClosed"};
 
 static void exec_line(char* line, bool nested);
@@ -89,7 +97,7 @@ static void on_callback(int idx, int which)
   if(cur) {
     collect(*cur);                      // what the operation caused so far comes before the callback
     if(cur->cbs.n) s_add(cur->cbs, ",");
-    if(nclients == 2) s_add(cur->cbs, idx ? "B." : "A.");
+    if(nclients >= 2) { char pf[3] = {(char)('A' + idx), '.', 0}; s_add(cur->cbs, pf); }
     s_add(cur->cbs, cbname[which]);
     char tok[32]; snprintf(tok, sizeof(tok), "C%d:%s", idx, cbname[which]);
     t_add(*cur, tok);
@@ -99,7 +107,14 @@ static void on_callback(int idx, int which)
     Ctx* outer = cur;
     if(outer) t_add(*outer, "^");
     sk_outcomes saved; sk_get_outcomes(&saved);   // the reaction has its own scripted send outcome;
-    exec_line(line, true);
+    for(char* part = line; part;) {     // `op & op & ...`: several operations from inside ONE callback invocation
+      char* amp = strstr(part, " & ");
+      if(amp) *amp = 0;
+      if(outer && part != line) t_add(*outer, "^");
+      exec_line(part, true);
+      cur = outer;
+      part = amp ? amp + 3 : 0;
+    }
     sk_put_outcomes(&saved);            // the outer operation keeps its (possibly unconsumed) ones
     free(line);
     cur = outer;
@@ -112,7 +127,7 @@ struct Cb : public Server::Client::ICallback
   void onRead() { on_callback(idx, 0); }
   void onWrite() { on_callback(idx, 1); }
   void onClosed() { on_callback(idx, 2); }
-} cbobj[2];
+} cbobj[NCL];
 
 static void print_mask(int i)
 {
@@ -128,9 +143,9 @@ static void print_line(const char* name, Ctx& c)
 {
   collect(c);
   printf("%ld %s r=%s n=", caseno, name, c.ret);
-  if(c.hasnum) printf("%ld", c.num); else printf("-");
+  if(c.hasnum) printf("%llu", c.num); else printf("-");
   printf(" cb=%s tx=%s", c.cbs.n ? c.cbs.p : "-", c.tx[0].n ? c.tx[0].p : "-");
-  if(nclients == 2) printf("/%s", c.tx[1].n ? c.tx[1].p : "-");
+  for(int i = 1; i < nclients; ++i) printf("/%s", c.tx[i].n ? c.tx[i].p : "-");
   printf(" sends=%s data=%s%s", c.sends.n ? c.sends.p : "-", c.data.n ? c.data.p : "-", c.dead ? " dead" : "");
   printf(" | sb=");
   for(int i = 0; i < nclients; ++i) {
@@ -171,10 +186,12 @@ static unsigned parse_mask(const char* p, const char* end)
   return m;
 }
 
-static void run_once()
+static void run_once(Ctx& c)
 {
   server->interrupt();
   server->run();
+  collect(c);
+  t_add(c, sk_interrupt_seen() ? "R" : "X");
   sk_disarm_event();
 }
 
@@ -185,15 +202,16 @@ static void exec_line(char* line, bool nested)
   const char* name = t.v[0];              // as printed
   int idx = 0;
   const char* opn = name;
-  if((opn[0] == 'A' || opn[0] == 'B') && opn[1] == '.') { idx = opn[0] == 'B' ? 1 : 0; opn += 2; }
-  if(idx >= nclients) { fprintf(stderr, "no client B in this case\n"); abort(); }
+  if(opn[0] >= 'A' && opn[0] < 'A' + NCL && opn[1] == '.') { idx = opn[0] - 'A'; opn += 2; }
+  if(idx >= nclients) { fprintf(stderr, "no client %c in this case\n", 'A' + idx); abort(); }
   Ctx c; ctx_init(c);
   cur = &c;
   if(nested) t_add(c, "~");
-  bool is_run = !strcmp(opn, "ev") || !strcmp(opn, "evs") || !strcmp(opn, "poll") || !strcmp(opn, "tick");
+  bool is_run = !strcmp(opn, "ev") || !strcmp(opn, "evs") || !strcmp(opn, "evsi") || !strcmp(opn, "poll") || !strcmp(opn, "tick");
   if(!strcmp(opn, "react")) {
     const char* cbn = t.v[1]; int ci = 0;
-    if((cbn[0] == 'A' || cbn[0] == 'B') && cbn[1] == '.') { ci = cbn[0] == 'B' ? 1 : 0; cbn += 2; }
+    if(cbn[0] >= 'A' && cbn[0] < 'A' + NCL && cbn[1] == '.') { ci = cbn[0] - 'A'; cbn += 2; }
+    if(ci >= nclients) { fprintf(stderr, "no client %c in this case\n", 'A' + ci); abort(); }
     int which = !strcmp(cbn, "onRead") ? 0 : !strcmp(cbn, "onWrite") ? 1 : 2;
     Str s; memset(&s, 0, sizeof(s));
     for(int i = 2; i < t.n; ++i) { if(i > 2) s_add(s, " "); s_add(s, t.v[i]); }
@@ -209,12 +227,12 @@ static void exec_line(char* line, bool nested)
   } else if(!strcmp(opn, "write") || !strcmp(opn, "write0")) {
     size_t n; unsigned char* d = vh::unhex(t.v[1], n);
     set_outcome(t.v[2]);
-    { if(c.trace.n) s_add(c.trace, ","); s_add(c.trace, idx ? "W1:" : "W0:"); if(n) s_hex(c.trace, d, n); else s_add(c.trace, "-"); }
+    { char wt[8]; snprintf(wt, sizeof(wt), "W%d:", idx); if(c.trace.n) s_add(c.trace, ","); s_add(c.trace, wt); if(n) s_hex(c.trace, d, n); else s_add(c.trace, "-"); }
     bool r;
     if(!strcmp(opn, "write")) {
       usize postponed = 12345;
       r = client[idx]->write(d, n, &postponed);
-      c.num = (long)postponed; c.hasnum = 1;
+      c.num = (unsigned long long)postponed; c.hasnum = 1;
     } else
       r = client[idx]->write(d, n);
     sk_set_outcome(SK_NONE, 0);
@@ -225,16 +243,17 @@ static void exec_line(char* line, bool nested)
       set_outcome(t.v[2]);
       sk_arm_event(SK_EV_SCRIPT);
       sk_add_event(idx, parse_mask(t.v[1], t.v[1] + strlen(t.v[1])));
-    } else if(!strcmp(opn, "evs")) {
+    } else if(!strcmp(opn, "evs") || !strcmp(opn, "evsi")) {
       sk_set_outcome(SK_NONE, 0);
       for(int i = 2; i < t.n; ++i) { int kind; long k; parse_outcome(t.v[i], &kind, &k); sk_push_outcome(kind, k); }
       sk_arm_event(SK_EV_SCRIPT);
       for(const char* p = t.v[1]; *p;) {        // A:io,B:i
         const char* e = strchr(p, ','); if(!e) e = p + strlen(p);
-        if((p[0] == 'A' || p[0] == 'B') && p[1] == ':' && (p[0] == 'A' || nclients == 2))
-          sk_add_event(p[0] == 'B' ? 1 : 0, parse_mask(p + 2, e));
+        if(p[0] >= 'A' && p[0] < 'A' + nclients && p[1] == ':')
+          sk_add_event(p[0] - 'A', parse_mask(p + 2, e));
         p = *e ? e + 1 : e;
       }
+      if(!strcmp(opn, "evsi")) sk_with_interrupt(1);
     } else if(!strcmp(opn, "poll")) {
       set_outcome(t.v[1]);
       sk_arm_event(SK_EV_REAL);
@@ -243,7 +262,7 @@ static void exec_line(char* line, bool nested)
       for(int i = 1; i < t.n; ++i) { int kind; long k; parse_outcome(t.v[i], &kind, &k); sk_push_outcome(kind, k); }
       sk_arm_event(SK_EV_TICK);
     }
-    run_once();
+    run_once(c);
     sk_set_outcome(SK_NONE, 0);
   } else if(!strcmp(opn, "suspend")) client[idx]->suspend();
   else if(!strcmp(opn, "resume")) client[idx]->resume();
@@ -252,7 +271,7 @@ static void exec_line(char* line, bool nested)
     unsigned char* buf = (unsigned char*)malloc(max > 0 ? (size_t)max : 1);
     usize size = 54321;
     bool r = client[idx]->read(buf, (usize)max, size);
-    c.ret = r ? "1" : "0"; c.num = (long)size; c.hasnum = 1;
+    c.ret = r ? "1" : "0"; c.num = (unsigned long long)size; c.hasnum = 1;
     if(r) s_hex(c.data, buf, size);
     free(buf);
   } else if(!strcmp(opn, "remove")) {
@@ -289,18 +308,19 @@ static void begin(long c, vh::Tok& t)
 {
   caseno = c;
   sk_reset();
-  for(int i = 0; i < 2; ++i)
+  for(int i = 0; i < NCL; ++i)
     for(int w = 0; w < 3; ++w) { while(reacth[i][w] < reactt[i][w]) free(reactq[i][w][reacth[i][w]++].line); reacth[i][w] = reactt[i][w] = 0; }
-  delete server; delete peer[0]; delete peer[1];
-  nclients = (t.n > 2 && !strcmp(t.v[2], "two")) ? 2 : 1;
-  server = new Server; peer[0] = new Socket; peer[1] = nclients == 2 ? new Socket : 0;
-  for(int i = 0; i < 2; ++i) { dead[i] = false; peer_closed[i] = false; client[i] = 0; cbobj[i].idx = i; }
+  delete server; for(int i = 0; i < NCL; ++i) { delete peer[i]; peer[i] = 0; }
+  nclients = t.n > 2 ? (!strcmp(t.v[2], "two") ? 2 : !strcmp(t.v[2], "three") ? 3 : !strcmp(t.v[2], "four") ? 4 : 1) : 1;
+  server = new Server;
+  for(int i = 0; i < nclients; ++i) peer[i] = new Socket;
+  for(int i = 0; i < NCL; ++i) { dead[i] = false; peer_closed[i] = false; client[i] = 0; cbobj[i].idx = i; }
   for(int i = 0; i < nclients; ++i) {
     client[i] = server->pair(cbobj[i], *peer[i]);
     if(!client[i]) { fprintf(stderr, "pair failed\n"); abort(); }
     sk_attach(i, (int)client[i]->getSocket().getFileDescriptor(), (int)peer[i]->getFileDescriptor());
   }
-  sk_tag_sends(nclients == 2);
+  sk_tag_sends(nclients >= 2);
 }
 
 static void op(long, long, vh::Tok& t)
@@ -326,8 +346,8 @@ static void end(long c)
     free(x.p);
   }
   printf("\n");
-  delete server; server = 0; client[0] = client[1] = 0;
-  delete peer[0]; delete peer[1]; peer[0] = peer[1] = 0;
+  delete server; server = 0;
+  for(int i = 0; i < NCL; ++i) { client[i] = 0; delete peer[i]; peer[i] = 0; }
   sk_reset();
 }
 
